@@ -12,7 +12,7 @@ from ..relang import equal, subset
 from ..resolver_lang import resolver_model, T, BOOL_WORDS, REF
 
 META = {
-    'claim_added': 'Also decided: a typed load accepts a scalar for float exactly on the float tag (R01.5); yatiml overrides resolve/construct_* at most by pure delegation.',
+    'claim_added': 'Also decided: a typed load accepts a scalar for float exactly on the float tag (R01.5); yatiml overrides resolve/construct_* at most by pure delegation. Round 3: recognition does not retag keys or values (R09.8); yatiml registers constructors for its own \'!\' tags only, the core tags keep PyYAML\'s (R04.3).',
     'level': 'proof',
     'technique': 'static: partial evaluation of the resolver-patch methods over PyYAML\'s constant tables + regex->DFA '
                  'language equality/inclusion with shortest counter-example',
